@@ -384,7 +384,7 @@ func stmtsBeforeLoop(fd *ast.FuncDecl) []ast.Stmt {
 }
 
 func checkC16(c *core.Ctx) {
-	c.Explainf("C16 (decided clause: parser/formatter sibling agreement; that equal token counts imply equal text, and comment attachment, are NOT decided). format.go is a second consumer of the token grammar, driven by fixed token counts. R1: every token kind for which ReadFile's switch records something in the File has an arm in format's switch that writes. R2: for each paired construct every token count the parser can take along its non-error paths (sum of expectNext arities, expectAnyOfNext = 1, Next = 1, UnNext = -1, readUntil/loops = unbounded; optNewline/skipEndOfLineComments = trivia) must be a count the formatter can consume (constant-trip loops x body + straight-line Next calls; a loop that runs to a delimiter covers every count); both are recomputed from source on every run. R3: where the parser loops (postfix [] in readFieldType) the formatter loops. R4: every token the formatter takes with a bare tr.Next() is written back as its own text (.concrete) or as the same punctuation literal. R4c: a lookahead (a kind test on a token taken by position) puts the token back with UnNext() or writes it on every path of the side where the test fails, before another token is taken or the function returns (go/cfg path rule). The same for a lookahead written as a switch (a non-dispatch switch on .kind some clause of which calls UnNext): every clause, the default and the no-match path account for the token. And a loop that ends on `if <tok>.kind == K { break }` holds K when it ends: K is written before anything else is taken, where a call to a helper that starts with tr.Next() counts as taking (helpers are summarised by their first token event). R4d: a token or its text is only ever appended, assigned or written in format.go — handing it to any other function is a transformation of source text (a re-spaced `//[tag(…)]` stops being a field tag). R5: the readonly marker is carried to the struct formatter. R7: every non-range loop of the formatter takes a token per cycle on balance or counts to its bound (the loop-progress rule of C10/R9 on format.go): Format terminates on finite input. R6: a line comment reaches the output with its line break: the tokenizer appends everything its delimiter read returned, or every formatter site adds the break.")
+	c.Explainf("C16 (decided clause: parser/formatter sibling agreement; that equal token counts imply equal text, and comment attachment, are NOT decided). format.go is a second consumer of the token grammar, driven by fixed token counts. R1: every token kind for which ReadFile's switch records something in the File has an arm in format's switch that writes. R2: for each paired construct every token count the parser can take along its non-error paths (sum of expectNext arities, expectAnyOfNext = 1, Next = 1, UnNext = -1, readUntil/loops = unbounded; optNewline/skipEndOfLineComments = trivia) must be a count the formatter can consume (constant-trip loops x body + straight-line Next calls; a loop that runs to a delimiter covers every count); both are recomputed from source on every run. R3: where the parser loops (postfix [] in readFieldType) the formatter loops. R4: every token the formatter takes with a bare tr.Next() is written back as its own text (.concrete) or as the same punctuation literal. R4c: a lookahead (a kind test on a token taken by position) puts the token back with UnNext() or writes it on every path of the side where the test fails, before another token is taken or the function returns (go/cfg path rule). The same for a lookahead written as a switch (a non-dispatch switch on .kind some clause of which calls UnNext): every clause, the default and the no-match path account for the token. And a loop that ends on `if <tok>.kind == K { break }` holds K when it ends: K is written before anything else is taken, where a call to a helper that starts with tr.Next() counts as taking (helpers are summarised by their first token event). R4d: a token or its text is only ever appended, assigned or written in format.go — handing it to any other function is a transformation of source text (a re-spaced `//[tag(…)]` stops being a field tag). R5: the readonly marker is carried to the struct formatter. R7: every non-range loop of the formatter takes a token per cycle on balance or counts to its bound (the loop-progress rule of C10/R9 on format.go): Format terminates on finite input. R6: a line comment reaches the output with its line break: the tokenizer appends everything its delimiter read returned, or every formatter site adds the break. R8: the parser does not let a line break decide whether a non-comment attribute reaches its definition (C11/R1b on the five definition loops): Format removes blank lines, so an attribute a blank line detaches would be attached after formatting.")
 	p := loadRepo(c)
 	if p == nil {
 		return
@@ -673,6 +673,7 @@ func checkC16(c *core.Ctx) {
 	tokensVerbatim(c, p, "R4d")
 	// R7: Format terminates — every loop of the formatter takes a token per cycle or counts to a bound
 	checkLoopProgress(c, p, "R7", "format.go")
+	attributesSurviveLineBreaks(c, p)
 	c.Floor("loops_checked_for_progress", 8)
 	c.Count("formatter_next_calls", nNext)
 	c.Floor("formatter_next_calls", 8)
@@ -1405,4 +1406,37 @@ func startsWithCurrentToken(info *types.Info, fn *types.Func) bool {
 		startsCache[fn] = 1
 	}
 	return res == 1
+}
+
+
+// attributesSurviveLineBreaks: R8. Format removes blank lines and re-breaks
+// the text, so the parser must not let a line break decide whether a
+// non-comment attribute ([deprecated], [opcode], [flags], readonly) reaches
+// the definition that follows it. This is C11's typestate (R1b: an iteration
+// of a definition loop that completed no definition does not clear a pending
+// non-comment attribute) kept under this property's name; doc comments are
+// exempt by the property's own wording.
+func attributesSurviveLineBreaks(c *core.Ctx, p *load.Prog) {
+	pkg := p.Bebop()
+	kept := 0
+	for _, name := range []string{"ReadFile", "readEnum", "readStruct", "readMessage", "readUnion"} {
+		fd := p.FuncDecl(pkg, name)
+		if fd == nil {
+			c.Undecide("%s not found", name)
+			continue
+		}
+		tmp := core.NewCtx(c.Prop, c.Tier, c.RepoDir, c.VerifDir)
+		pendingTypestate(tmp, p, fd, name)
+		for _, o := range tmp.Obls {
+			if strings.HasSuffix(o.Rule, "/R1b") {
+				kept++
+				c.Check("R8", o.Key, o.Pos, o.OK, o.Msg+" — Format drops blank lines and re-breaks the text, so the formatted schema and the original then differ in this attribute")
+			}
+		}
+		for _, u := range tmp.Undecided {
+			c.Undecide("%s", u)
+		}
+	}
+	c.Count("attribute_survival_obligations", kept)
+	c.Floor("attribute_survival_obligations", 4)
 }
